@@ -21,6 +21,8 @@ structure St where
   map : List String := []               -- keys present in mapToVacuum
   snap : Option (List (String × Nat)) := none   -- the pass's snapshot (between snap and del)
   drop : Option Nat := none             -- deleteUntil (between del and trim)
+  reg : List (String × Nat) := []       -- ghost: deadline of the LATEST registration of every key
+  lastPass : Option Nat := none         -- ghost: instant of the last completed pass
   deriving Repr
 
 /-- `entry.vacuumAt.Before(now)` -/
@@ -38,7 +40,8 @@ inductive Step
   deriving Repr
 
 def step (s : St) : Step → St
-  | .add k => { s with map := k :: s.map.filter (· != k), entries := s.entries ++ [(k, s.now + s.ttl)] }
+  | .add k => { s with map := k :: s.map.filter (· != k), entries := s.entries ++ [(k, s.now + s.ttl)],
+                       reg := (k, s.now + s.ttl) :: s.reg.filter (·.1 != k) }
   | .snap => if s.snap.isNone && s.drop.isNone then { s with snap := some s.entries } else s
   | .del =>
     match s.snap with
@@ -50,7 +53,7 @@ def step (s : St) : Step → St
   | .trim =>
     match s.drop with
     | none => s
-    | some n => { s with drop := none, entries := s.entries.drop n }
+    | some n => { s with drop := none, entries := s.entries.drop n, lastPass := some s.now }
   | .tick n => { s with now := s.now + n }
 
 def run (steps : List Step) (s : St) : St := steps.foldl step s
